@@ -74,10 +74,42 @@ class Run:
         if self.impl_exe:
             env = dict(vlib.SAN_ENV)
             env.update(getattr(self.p, "ENV", {}))
-            rc, out = sh([self.impl_exe, cf], timeout=getattr(self.p, "IMPL_TIMEOUT", 1800), env=env)
+            tmo = getattr(self.p, "IMPL_TIMEOUT", 1800)
+            rc, out = sh([self.impl_exe, cf], timeout=tmo, env=env)
             lines = out.split("\n")
             if lines and lines[-1] == "":
                 lines.pop()
+            # a time-out of the whole batch (a loaded machine, a large thorough batch) is not the fault of the case that
+            # happened to be running: keep the complete lines and continue with the remaining cases; only a case that makes
+            # no progress on its own within the time limit is reported (as a hang)
+            def complete_lines(text):
+                """complete output lines of a timed-out run (the marker and a partially written last line dropped)"""
+                i = text.rfind("\n[timeout after")
+                body = text[:i] if i >= 0 else text
+                ls = body.split("\n")
+                return ls[:-1]                      # the last element is "" (body ended with a newline) or a partial line
+            rounds = 0
+            while rc == 124 and rounds < 20:
+                rounds += 1
+                done = complete_lines(out) if rounds == 1 else lines
+                if len(done) >= len(cases):
+                    lines, rc = done[:len(cases)], 0
+                    break
+                rest = cases[len(done):]
+                cf_r = os.path.join(self.work, label + ".rest%d.cases" % rounds)
+                _write(cf_r, rest)
+                rc, out2 = sh([self.impl_exe, cf_r], timeout=tmo, env=env)
+                if rc == 124:
+                    more = complete_lines(out2)
+                    if not more:
+                        lines = done                          # no progress at all: the first remaining case hangs
+                        break
+                else:
+                    more = out2.split("\n")
+                    if more and more[-1] == "":
+                        more.pop()
+                lines = done + more
+                self.notes.append("driver batch timed out after %ds; continued with the remaining %d cases" % (tmo, len(rest)))
             if rc != 0 or len(lines) != len(cases):
                 # the driver died: the failing case is the first one without an output line
                 good = []
